@@ -156,6 +156,24 @@ class Rewriter:
             toks = tokenize(text[m.end() - 1:])
             e = match_close(toks, 0)
             end = m.end() - 1 + toks[e].end
+            if Rewriter.unit_macros[m.group(1)] == "@expand":
+                # R19b: a local macro with ONE arm whose parameters are all `$name: expr` is expanded mechanically at its uses:
+                # the rule becomes the arm's body with `$name` replaced positionally (each argument in parentheses)
+                inner = text[m.end():end - 1]
+                ma = re.match(r"\s*\(([^()]*)\)\s*=>\s*\{(.*)\}\s*;?\s*$", inner, re.S)
+                if not ma or "=>" in ma.group(2).replace("=> {", ""):
+                    raise ExtractError("R19b: local macro %s! is not a single-arm macro" % m.group(1))
+                params = [q.strip() for q in ma.group(1).split(",") if q.strip()]
+                body = ma.group(2)
+                for k, q in enumerate(params):
+                    mq = re.match(r"\$(\w+)\s*:\s*expr$", q)
+                    if not mq:
+                        raise ExtractError("R19b: parameter `%s` of local macro %s! is not `$x: expr`" % (q, m.group(1)))
+                    body = re.sub(r"\$%s\b" % mq.group(1), "($%d)" % (k + 1), body)
+                if re.search(r"\$[A-Za-z_(*]", body):
+                    raise ExtractError("R19b: unsupported fragment in local macro %s!" % m.group(1))
+                Rewriter.unit_macros[m.group(1)] = " ".join(body.split())
+                self.count("R19b local macro_rules! %s expanded mechanically at its uses (body from the source)" % m.group(1))
             text = text[:m.start()] + self.pad("", text[m.start():end]) + text[end:]
             self.count("R19 local macro_rules! %s definition dropped" % m.group(1))
 
@@ -1239,6 +1257,9 @@ class Unit:
                 sigsubs.append(parse_map(s[len("//@sigsub"):], relaxed=True))
             elif s.startswith("//@sig "):
                 sig_override = s[len("//@sig "):].strip()
+            elif s.startswith("//@sub?"):
+                # optional rewrite (type coercions and the like): applied where it matches, no anchor is lost where it does not
+                subs.append(parse_map(s[len("//@sub?"):], relaxed=True) + (True,))
             elif s.startswith("//@sub"):
                 subs.append(parse_map(s[len("//@sub"):], relaxed=True))
             elif s.startswith("//@"):
@@ -1336,9 +1357,12 @@ class Unit:
         body = rw.apply_maps(body, self.maps, "body")
         rw.unit_text = self.unit_text_all
         body = rw.error_closures(body)
-        for rx, repl in subs:
+        for sub_rule in subs:
+            rx, repl = sub_rule[0], sub_rule[1]
             body, nsub = rx.subn(repl, body)
             if nsub == 0:
+                if len(sub_rule) > 2:
+                    continue
                 raise ExtractError("anchor lost: //@sub /%s/ in %s" % (rx.pattern, name))
             rw.count("MANUAL sub /%s/ => %s" % (rx.pattern, repl), nsub)
         # R13: `for &PAT in EXPR {` -> `for vx_ref in EXPR { let PAT = *vx_ref;` (Verus has no reference patterns)
